@@ -1,7 +1,7 @@
 (* Checkers evaluated by the correspondence run: each returns the indices of
    the cases on which the model and the implementation's observed output
    differ. *)
-From V Require Import Common.Base C09.Cache C09.OptionFields.
+From V Require Import Common.Base C09.Cache C09.OptionFields C09.Watch.
 From V Require Import gen.OptionFieldsGen.
 Require Import Coq.Strings.String.
 Open Scope string_scope.
@@ -67,3 +67,57 @@ Definition opteq_complete_ok (c : Z * list string) : bool :=
   let '(cache, names) := c in
   forallb (fun f => negb (of_set f) || str_in (of_name f) names) (table_of cache).
 Definition check_opteq_complete := mismatches opteq_complete_ok.
+
+(* ---- watch data of the real FS ----
+   world entry: (path, listing or None, ReadFile answer, ModKey answer, isfile) *)
+Definition wentry := (Z * option (list name) * list Z * list Z * bool)%type.
+Definition mk_world (l : list wentry) : wworld :=
+  let find p := List.find (fun e : wentry => let '(q, _, _, _, _) := e in q =? p) l in
+  mkWw (fun p => match find p with Some (_, d, _, _, _) => d | None => None end)
+       (fun p => match find p with Some (_, _, r, _, _) => dec_rd r | None => RdErr 2 end)
+       (fun p => match find p with Some (_, _, _, m, _) => dec_mk m | None => MKErr 2 end)
+       (fun p => match find p with Some (_, _, _, _, b) => b | None => false end).
+
+(* op: (kind, path, name) kind 0 ReadDirectory 1 Get 2 SortedKeys 3 ReadFile 4 ModKey *)
+Definition dec_obs (o : Z * Z * name) : obs :=
+  let '(k, p, n) := o in
+  if k =? 0 then OReadDir p else if k =? 1 then OGet p n else if k =? 2 then OSortedKeys p
+  else if k =? 3 then OReadFile p else OModKey p.
+
+(* observed record: (path, state code, key, contents, wasPresent sorted by key, allEntries or None) *)
+Definition wobs := (Z * Z * list Z * Z * list (name * bool) * option (list name))%type.
+
+Fixpoint insert_pb (x : name * bool) (l : list (name * bool)) : list (name * bool) :=
+  match l with
+  | [] => [x]
+  | y :: r => if name_ltb (fst y) (fst x) then y :: insert_pb x r else x :: l
+  end.
+Definition sort_pb (l : list (name * bool)) := fold_right insert_pb [] l.
+Definition pb_eqb (a b : list (name * bool)) : bool :=
+  list_eqb (fun x y => name_eqb (fst x) (fst y) && Bool.eqb (snd x) (snd y)) a b.
+
+Definition wobs_ok (f : wfs) (o : wobs) : bool :=
+  let '(p, st, key, c, pres, all) := o in
+  match lookup p (wf_data f) with
+  | None => false
+  | Some r =>
+      (wstate_code (wd_state r) =? st) && zlist_eqb (wd_key r) key && (wd_contents r =? c) &&
+      match wd_acc r with
+      | Some a => pb_eqb (sort_pb (present_map (ac_present a) [])) pres && option_eqb names_eqb (ac_all a) all
+      | None => match pres, all with [], None => true | _, _ => false end
+      end
+  end.
+
+Fixpoint insert_z (x : Z) (l : list Z) : list Z :=
+  match l with [] => [x] | y :: r => if y <? x then y :: insert_z x r else x :: l end.
+Definition sort_z (l : list Z) := fold_right insert_z [] l.
+
+(* (world at build time, log, observed records, world after the edit, observed dirty paths (sorted)) *)
+Definition watch_case := (list wentry * list (Z * Z * name) * list wobs * list wentry * list Z)%type.
+Definition watch_ok (c : watch_case) : bool :=
+  let '(w, log, obsd, w2, dirty) := c in
+  let f := record (mk_world w) (map dec_obs log) in
+  Nat.eqb (List.length (newest (wf_data f) [])) (List.length obsd) &&
+  forallb (wobs_ok f) obsd &&
+  zlist_eqb (sort_z (dirty_paths (mk_world w2) (finalize (mk_world w) f))) dirty.
+Definition check_watch := mismatches watch_ok.
